@@ -154,6 +154,17 @@ func (c *Cases) Close(extra map[string]any) {
 	os.WriteFile(OutDir()+"/meta.json", b, 0o644)
 }
 
+// Breadcrumb records (overwriting) what the harness is about to do. If the process dies — e.g. a panic on a
+// goroutine of the code under test, which no recover in the harness can catch — the orchestrator puts the last
+// breadcrumb into the replay file as the input that was being processed.
+func Breadcrumb(v any) {
+	b, err := json.Marshal(v)
+	if err != nil {
+		return
+	}
+	os.WriteFile(OutDir()+"/breadcrumb.json", b, 0o644)
+}
+
 // ---------------------------------------------------------------- Lean printers
 
 func LeanStr(s string) string {
